@@ -22,24 +22,37 @@ def edit_identifiers(eq, mapping):
 
 
 def gen_inherit(rng):
-    """base operator over identifiers that contain one another, a derived operator with overrides + edit dict, and the
-    explicitly written expectation"""
-    base_eqs = ["r' = (-r + rr*k + r_in + m_in2*kk)/tau", "rr' = -rr + r*r2 - in_r"]
-    base_vars = {'r': 'output(0.25)', 'rr': 'variable(0.5)', 'k': 1.5, 'kk': 0.75, 'r_in': 'input(0.0)', 'm_in2': 0.125,
-                 'tau': 0.5, 'r2': 2.0, 'in_r': 0.375}
+    """base operator over identifiers that contain one another (prefixes AND suffixes: k/kk/a_k, r2/x_r2, r/rr/r_in/in_r),
+    terms in seeded order (so that any identifier can be the last token of an equation), a derived operator with
+    overrides + edit dict, and the explicitly written expectation"""
+    def eq(lhs, first, terms):
+        terms = list(terms)
+        rng.shuffle(terms)
+        if rng.random() < 0.5:
+            terms = terms + [first]
+            first = terms.pop(0)
+        out = first[1] if first[0] > 0 else f'-{first[1]}'
+        for sgn, t in terms:
+            out += (' + ' if sgn > 0 else ' - ') + t
+        return f"{lhs} = {out}"
+    base_eqs = [eq("r'", (-1, 'r/tau'), [(1, 'rr*k'), (1, 'r_in'), (1, 'm_in2*kk'), (1, 'a_k')]),
+                eq("rr'", (-1, 'rr'), [(1, 'r*r2'), (-1, 'in_r'), (1, 'x_r2*rr')])]
+    base_vars = {'r': 'output(0.25)', 'rr': 'variable(0.5)', 'k': 1.5, 'kk': 0.75, 'a_k': 0.3125, 'r_in': 'input(0.0)',
+                 'm_in2': 0.125, 'tau': 0.5, 'r2': 2.0, 'x_r2': -0.25, 'in_r': 0.375}
+    params = ['r_in', 'k', 'kk', 'a_k', 'r2', 'x_r2', 'in_r', 'm_in2']
     edits = {}
     exp_eqs = list(base_eqs)
     new_vars = {}
-    kind = rng.choice(['replace', 'replace', 'replace2', 'append', 'prepend', 'add', 'remove', 'vars-only'])
+    kind = rng.choice(['replace', 'replace', 'replace', 'replace2', 'append', 'add', 'remove', 'vars-only'])
     if kind in ('replace', 'replace2'):
-        # parameters and inputs only: replacing a state variable also on the left-hand side is a rename, which the edit
-        # dictionary does not offer (d/dt targets stay as they are)
-        old = rng.choice(['r_in', 'k', 'kk', 'r2', 'in_r', 'm_in2', 'k', 'r2'])
+        # parameters and inputs only: replacing a state variable also on the left-hand side would be a rename, which the
+        # edit dictionary does not offer (d/dt targets stay as they are)
+        old = rng.choice(params + ['k', 'r2'])
         repl = rng.choice(['({old}*g2)', '({old} + g2)', 'g2'])
         new = repl.format(old=old)
         edits['replace'] = {old: new}
         if kind == 'replace2':
-            old2 = rng.choice([x for x in ['k', 'kk', 'r2', 'in_r', 'm_in2'] if x != old and x not in new])
+            old2 = rng.choice([x for x in params if x != old and x not in new and old not in x])
             edits['replace'][old2] = f'({old2}*h2)'
             new_vars['h2'] = 1.25
         # sequential application in dict order, like the implementation's loop, each on whole identifiers
@@ -50,25 +63,28 @@ def gen_inherit(rng):
         edits['append'] = '+ g2*kk'
         exp_eqs = [f'{e} + g2*kk' for e in exp_eqs]
         new_vars['g2'] = 0.625
-    elif kind == 'prepend':
-        # prepend applies to the start of the equation string: only sensible for adding a factor-free prefix; PyRates
-        # puts it before the left-hand side, so a meaningful use is rare.  Kept to variables-only here.
-        kind = 'vars-only'
     elif kind == 'add':
         edits['add'] = ["s2' = -s2 + r*rr"]
         exp_eqs = exp_eqs + ["s2' = -s2 + r*rr"]
         new_vars['s2'] = 'variable(0.1)'
     elif kind == 'remove':
-        edits['remove'] = ['- in_r']
-        exp_eqs = [e.replace(' - in_r', ' ') for e in exp_eqs]
+        term = rng.choice(['a_k', 'in_r', 'r_in'])
+        # remove the whole signed term wherever it stands (string removal of "<sign> term", whole identifiers)
+        pat = {'a_k': '+ a_k', 'in_r': '- in_r', 'r_in': '+ r_in'}[term]
+        if any(pat in e for e in base_eqs):
+            edits['remove'] = [pat]
+            exp_eqs = [re.sub(r'(?<![A-Za-z0-9_])' + re.escape(pat) + r'(?![A-Za-z0-9_])', '', e) for e in exp_eqs]
+        else:
+            kind = 'vars-only'
     over = {}
-    for v in rng.sample(['k', 'kk', 'tau', 'r2', 'm_in2'], rng.randint(0, 2)):
+    for v in rng.sample(['k', 'kk', 'tau', 'r2', 'm_in2', 'a_k', 'x_r2'], rng.randint(0, 2)):
         over[v] = rng.randint(1, 40) / 16
     if rng.random() < 0.3:
         over['r'] = 'output(0.75)'
     exp_vars = dict(base_vars)
     exp_vars.update(over)
     exp_vars.update(new_vars)
+
     # variables that no longer occur in any equation are dropped by PyRates (documented clean-up): mirror that
     def occurs(v, eqs):
         return any(re.search(r'(?<![A-Za-z0-9_])' + re.escape(v) + r'(?![A-Za-z0-9_])', e) for e in eqs)
